@@ -355,7 +355,9 @@ func c32PaddingJSON(c *Ctx) {
 	if fn == nil {
 		return
 	}
-	policy := fn.Find(an.AssignsTo(func(e ast.Expr) bool { return an.FieldSel(info, an.Unparen(e), "UtlsPaddingExtension", "GetPaddingLen") }))
+	policy := fn.Find(an.AssignsTo(func(e ast.Expr) bool {
+		return an.FieldSel(info, an.Unparen(e), "UtlsPaddingExtension", "GetPaddingLen")
+	}))
 	willPad := fn.Find(func(n ast.Node) bool {
 		as, ok := n.(*ast.AssignStmt)
 		if !ok || len(as.Lhs) != 1 || len(as.Rhs) != 1 || !an.FieldSel(info, an.Unparen(as.Lhs[0]), "UtlsPaddingExtension", "WillPad") {
@@ -551,7 +553,9 @@ func c04RewriteGuards(c *Ctx) {
 
 func init() {
 	registerExtra("C05", func(c *Ctx) { sliceInsertAliasRule(c, "C05.5", []string{"ClientHelloSpec.AlwaysAddPadding"}) })
-	registerExtra("C17", func(c *Ctx) { sliceInsertAliasRule(c, "C17.9", []string{"clientHandshakeStateTLS13.processHelloRetryRequest"}) })
+	registerExtra("C17", func(c *Ctx) {
+		sliceInsertAliasRule(c, "C17.9", []string{"clientHandshakeStateTLS13.processHelloRetryRequest"})
+	})
 	registerExtra("C02", func(c *Ctx) { sliceInsertAliasRule(c, "C02.7", nil) })
 }
 
@@ -578,6 +582,13 @@ func sliceInsertAliasRule(c *Ctx, rule string, funcs []string) {
 		}
 		ast.Inspect(fd.Body, func(x ast.Node) bool {
 			outer, ok := x.(*ast.CallExpr)
+			if ok {
+				if f, _ := an.Callee(info, outer).(*types.Func); f != nil && f.Pkg() != nil && f.Pkg().Path() == "slices" && f.Name() == "Insert" {
+					n++
+					r.Ok(rule, who+":insert@slices.Insert", c.Pos(outer), "slices.Insert moves the tail before writing the new element")
+					return true
+				}
+			}
 			if !ok || !isAppend(info, outer) || len(outer.Args) != 2 || !outer.Ellipsis.IsValid() {
 				return true
 			}
@@ -612,4 +623,400 @@ func isAppend(info *types.Info, call *ast.CallExpr) bool {
 	}
 	_, isB := info.Uses[id].(*types.Builtin)
 	return isB
+}
+
+// ---- C08.8 (seeded C08-3): a memoised Len() is only stored once the extension is initialised ---
+
+func init() { registerExtra("C08", c08MemoRule) }
+
+// c08MemoRule: an extension whose Len() stores its result in a receiver field (a memo) and
+// whose IsInitialized() is `return e.F != nil` must not reach that store while e.F == nil:
+// the length computed before initialisation (0) would be served for the initialised
+// extension, and Len() would disagree with the bytes Read() writes.
+func c08MemoRule(c *Ctx) {
+	r := c.R
+	tls := c.P.TLS
+	info := tls.TypesInfo
+	n := 0
+	for _, fd := range load.AllFuncDecls(tls) {
+		if fd.Name.Name != "Len" || fd.Recv == nil || fd.Body == nil {
+			continue
+		}
+		T := load.RecvName(fd)
+		initFd := load.FuncDecl(tls, T, "IsInitialized")
+		if initFd == nil || initFd.Body == nil || len(initFd.Body.List) != 1 {
+			continue
+		}
+		rs, ok := initFd.Body.List[0].(*ast.ReturnStmt)
+		if !ok || len(rs.Results) != 1 {
+			continue
+		}
+		be, ok := an.Unparen(rs.Results[0]).(*ast.BinaryExpr)
+		if !ok || be.Op != token.NEQ || !an.IsNilIdent(info, be.Y) {
+			continue
+		}
+		sel, ok := an.Unparen(be.X).(*ast.SelectorExpr)
+		if !ok {
+			continue
+		}
+		field := sel.Sel.Name
+		fn := an.NewFn(tls, fd)
+		recvObj := types.Object(nil)
+		if len(fd.Recv.List) == 1 && len(fd.Recv.List[0].Names) == 1 {
+			recvObj = info.Defs[fd.Recv.List[0].Names[0]]
+		}
+		if recvObj == nil {
+			continue
+		}
+		isRecvField := func(e ast.Expr, name string) bool {
+			s, ok := an.Unparen(e).(*ast.SelectorExpr)
+			if !ok || (name != "" && s.Sel.Name != name) {
+				return false
+			}
+			id, ok := an.Unparen(s.X).(*ast.Ident)
+			return ok && objOf(info, id) == recvObj
+		}
+		// memo stores: e.f = …
+		stores := fn.Find(func(x ast.Node) bool {
+			as, ok := x.(*ast.AssignStmt)
+			if !ok {
+				return false
+			}
+			for _, l := range as.Lhs {
+				if isRecvField(l, "") {
+					return true
+				}
+			}
+			return false
+		})
+		if len(stores) == 0 {
+			continue
+		}
+		pass, _, _ := condEdges(fn, func(cond ast.Expr) (bool, bool) {
+			b, ok := an.Unparen(cond).(*ast.BinaryExpr)
+			if !ok || (b.Op != token.NEQ && b.Op != token.EQL) {
+				return false, false
+			}
+			x, y := b.X, b.Y
+			if an.IsNilIdent(info, x) {
+				x, y = y, x
+			}
+			if !an.IsNilIdent(info, y) || !isRecvField(x, field) {
+				return false, false
+			}
+			return true, b.Op == token.NEQ
+		})
+		for _, st := range stores {
+			n++
+			cons := T + ".Len:memo-after-init"
+			r.Check(fn.MustPass(st, nil, pass), "C08.8", cons, c.PosP(st),
+				"the memo store is reached only with e."+field+" != nil (IsInitialized)",
+				"Len() stores its memo on a path where e."+field+" may still be nil: the length of the uninitialised extension is cached and later served for the initialised one, so Len() disagrees with what Read() writes")
+		}
+	}
+	r.Count("C08.8_memo_stores", n)
+	r.Floor("C08.8", 1)
+}
+
+// ---- C09.8 (seeded C09-1): the in-place RC4 filter visits every element ---------------------
+
+func init() { registerExtra("C09", c09FilterLoop) }
+
+// c09FilterLoop: removeRC4Ciphers must remove every match. Accepted idioms: slices.DeleteFunc;
+// a loop that appends the kept elements to another slice (no in-place delete); a backward
+// index loop with the in-place delete; a forward index loop whose delete branch steps the
+// index back (i--) before the post statement. A forward loop that deletes s[i] and then
+// advances skips the element that moved into position i: two adjacent RC4 suites leave one.
+func c09FilterLoop(c *Ctx) {
+	r := c.R
+	tls := c.P.TLS
+	info := tls.TypesInfo
+	fd := load.FuncDecl(tls, "", "removeRC4Ciphers")
+	if fd == nil || fd.Body == nil {
+		r.Unknown("C09.8", "removeRC4Ciphers", "", "function not found")
+		return
+	}
+	cons := "removeRC4Ciphers:visits-every-element"
+	usesDeleteFunc := false
+	var deletes []*ast.AssignStmt
+	var loops []*ast.ForStmt
+	ast.Inspect(fd.Body, func(n ast.Node) bool {
+		switch x := n.(type) {
+		case *ast.CallExpr:
+			if f, _ := an.Callee(info, x).(*types.Func); f != nil && f.Pkg() != nil && f.Pkg().Path() == "slices" && f.Name() == "DeleteFunc" {
+				usesDeleteFunc = true
+			}
+		case *ast.ForStmt:
+			loops = append(loops, x)
+		case *ast.AssignStmt:
+			if len(x.Lhs) == 1 && len(x.Rhs) == 1 {
+				if call, ok := an.Unparen(x.Rhs[0]).(*ast.CallExpr); ok && isAppend(info, call) && len(call.Args) == 2 && call.Ellipsis.IsValid() {
+					h, ok1 := an.Unparen(call.Args[0]).(*ast.SliceExpr)
+					t, ok2 := an.Unparen(call.Args[1]).(*ast.SliceExpr)
+					if ok1 && ok2 && h.Low == nil && h.High != nil && t.Low != nil && t.High == nil && an.Str(h.X) == an.Str(t.X) {
+						if be, ok := an.Unparen(t.Low).(*ast.BinaryExpr); ok && be.Op == token.ADD && an.Str(be.X) == an.Str(h.High) {
+							if v, ok := an.ConstInt(info, be.Y); ok && v == 1 {
+								deletes = append(deletes, x)
+							}
+						}
+					}
+				}
+			}
+		}
+		return true
+	})
+	switch {
+	case usesDeleteFunc && len(deletes) == 0:
+		r.Ok("C09.8", cons, c.Pos(fd), "slices.DeleteFunc")
+	case len(deletes) == 0:
+		r.Ok("C09.8", cons, c.Pos(fd), "no in-place deletion (kept elements are collected)")
+	default:
+		for _, del := range deletes {
+			var loop *ast.ForStmt
+			for _, l := range loops {
+				if l.Body.Pos() <= del.Pos() && del.End() <= l.Body.End() {
+					loop = l
+				}
+			}
+			if loop == nil || loop.Post == nil {
+				r.Unknown("C09.8", cons, c.Pos(del), "in-place deletion outside a for loop with a post statement")
+				continue
+			}
+			inc, ok := loop.Post.(*ast.IncDecStmt)
+			if !ok {
+				r.Unknown("C09.8", cons, c.Pos(loop), "loop post statement is not i++ / i--")
+				continue
+			}
+			idx := an.Str(inc.X)
+			h := an.Unparen(del.Rhs[0]).(*ast.CallExpr).Args[0].(*ast.SliceExpr)
+			if an.Str(h.High) != idx {
+				r.Unknown("C09.8", cons, c.Pos(del), "deletion index %s is not the loop index %s", an.Str(h.High), idx)
+				continue
+			}
+			if inc.Tok == token.DEC {
+				r.Ok("C09.8", cons, c.Pos(del), "backward loop: elements behind the index are not revisited")
+				continue
+			}
+			// forward loop: the statements following the delete in its block must step the index back
+			stepped := false
+			ast.Inspect(loop.Body, func(n ast.Node) bool {
+				bl, ok := n.(*ast.BlockStmt)
+				if !ok {
+					return true
+				}
+				for i, st := range bl.List {
+					if st == ast.Stmt(del) {
+						for _, later := range bl.List[i+1:] {
+							if d, ok := later.(*ast.IncDecStmt); ok && d.Tok == token.DEC && an.Str(d.X) == idx {
+								stepped = true
+							}
+							if a, ok := later.(*ast.AssignStmt); ok && len(a.Lhs) == 1 && an.Str(a.Lhs[0]) == idx && (a.Tok == token.SUB_ASSIGN) {
+								if v, ok := an.ConstInt(info, a.Rhs[0]); ok && v == 1 {
+									stepped = true
+								}
+							}
+						}
+					}
+				}
+				return true
+			})
+			r.Check(stepped, "C09.8", cons, c.Pos(del), "forward loop steps the index back after deleting s[i]",
+				"the forward loop deletes s["+idx+"] and then advances: the element that moved into position "+idx+" is never examined, so of two adjacent RC4 suites one survives into a TLS 1.3 spec")
+		}
+	}
+	r.Floor("C09.8", 1)
+}
+
+// ---- C15.9 (seeded C15-2): echConfig.raw is exactly the config's own bytes -------------------
+
+func init() { registerExtra("C15", c15RawTrim) }
+
+// c15RawTrim: the HPKE info string is "tls ech\0" || ECHConfig, where ECHConfig is the picked
+// config's own 4+Length bytes. parseECHConfig receives the rest of the list, so every path to a
+// successful return of the parsed config must store into ec.raw a slice cut at 4+Length;
+// otherwise, for any config but the last of a list, client and server derive different HPKE
+// contexts and the server cannot open the inner hello.
+func c15RawTrim(c *Ctx) {
+	r := c.R
+	info := c.Info()
+	fn := c.Fn("C15.9", "", "parseECHConfig")
+	if fn == nil {
+		return
+	}
+	cons := "parseECHConfig:raw-trimmed-to-config"
+	isRaw := func(e ast.Expr) bool { return an.FieldSel(info, an.Unparen(e), "echConfig", "raw") }
+	strip := func(e ast.Expr) ast.Expr {
+		for {
+			e = an.Unparen(e)
+			if cv, ok := e.(*ast.CallExpr); ok && len(cv.Args) == 1 {
+				if tv, ok := info.Types[cv.Fun]; ok && tv.IsType() {
+					e = cv.Args[0]
+					continue
+				}
+			}
+			return e
+		}
+	}
+	isTrimBound := func(e ast.Expr) bool {
+		be, ok := strip(e).(*ast.BinaryExpr)
+		if !ok || be.Op != token.ADD {
+			return false
+		}
+		x, y := strip(be.X), strip(be.Y)
+		if _, ok := an.ConstInt(info, x); ok {
+			x, y = y, x
+		}
+		v, ok := an.ConstInt(info, y)
+		return ok && v == 4 && an.FieldSel(info, x, "echConfig", "Length")
+	}
+	var trims, whole []an.Point
+	for _, h := range fn.FindNodes(an.AssignsTo(isRaw)) {
+		as := h.N.(*ast.AssignStmt)
+		if len(as.Rhs) != 1 {
+			continue
+		}
+		if se, ok := strip(as.Rhs[0]).(*ast.SliceExpr); ok && se.Low == nil && se.High != nil && isTrimBound(se.High) {
+			trims = append(trims, h.P)
+		} else {
+			whole = append(whole, h.P)
+		}
+	}
+	// successful returns: return false, ec, nil
+	n := 0
+	for _, p := range fn.Returns() {
+		rs, ok := p.Node().(*ast.ReturnStmt)
+		if !ok || len(rs.Results) != 3 || !an.IsNilIdent(info, rs.Results[2]) {
+			continue
+		}
+		if _, isLit := an.Unparen(rs.Results[1]).(*ast.CompositeLit); isLit {
+			continue // skipped config: nothing is kept
+		}
+		n++
+		switch {
+		case fn.MustPass(p, trims, nil):
+			r.Ok("C15.9", cons, c.PosP(p), "every path to the successful return cuts raw at 4+Length")
+		case len(trims) == 0 && len(whole) > 0:
+			r.Bad("C15.9", cons, c.PosP(p), "echConfig.raw keeps the bytes that follow the config (never cut at 4+Length): for a list with more than one config the HPKE info differs from the server's and an honest server rejects ECH")
+		default:
+			r.Unknown("C15.9", cons, c.PosP(p), "cannot show that raw is cut at 4+Length on every path to this return")
+		}
+	}
+	if n == 0 {
+		r.Unknown("C15.9", cons, c.Pos(fn.Decl), "no successful return found")
+	}
+	r.Floor("C15.9", 1)
+}
+
+// ---- C16.8 (seeded C16-1): KDF ids go to the KDF slot, AEAD ids to the AEAD slot ---------------
+
+func init() { registerExtra("C16", c16SuiteSlots) }
+
+// c16SuiteSlots: HPKE_KDF_ID and HPKE_AEAD_ID are both aliases of uint16, so the compiler
+// accepts a swapped pair. Every HPKESymmetricCipherSuite literal of the uTLS sources must fill
+// KdfId from a KDF-denoting source (a .KdfId/.KDFID selector, or a constant named *KDF*/*Kdf*)
+// and AeadId from an AEAD-denoting one; when both come from CandidateCipherSuites they must
+// index the same element (a "pair from the candidate list").
+func c16SuiteSlots(c *Ctx) {
+	r := c.R
+	tls := c.P.TLS
+	info := tls.TypesInfo
+	strip := func(e ast.Expr) ast.Expr {
+		for {
+			e = an.Unparen(e)
+			if cv, ok := e.(*ast.CallExpr); ok && len(cv.Args) == 1 {
+				if tv, ok := info.Types[cv.Fun]; ok && tv.IsType() {
+					e = cv.Args[0]
+					continue
+				}
+			}
+			return e
+		}
+	}
+	role := func(e ast.Expr) (string, string) { // role, index-expression (for candidate elements)
+		e = strip(e)
+		name, idx := "", ""
+		switch x := e.(type) {
+		case *ast.SelectorExpr:
+			name = x.Sel.Name
+			if ie, ok := an.Unparen(x.X).(*ast.IndexExpr); ok {
+				idx = an.Str(ie.X) + "[" + an.Str(ie.Index) + "]"
+			}
+			if _, isConst := info.Uses[x.Sel].(*types.Const); !isConst {
+				if _, isVar := info.Uses[x.Sel].(*types.Var); !isVar {
+					return "", ""
+				}
+			}
+		case *ast.Ident:
+			if _, isConst := info.Uses[x].(*types.Const); !isConst {
+				return "", ""
+			}
+			name = x.Name
+		default:
+			return "", ""
+		}
+		up := strings.ToUpper(name)
+		switch {
+		case strings.Contains(up, "KDF") && !strings.Contains(up, "AEAD"):
+			return "kdf", idx
+		case strings.Contains(up, "AEAD") || strings.Contains(up, "GCM") || strings.Contains(up, "CHACHA"):
+			return "aead", idx
+		}
+		return "", ""
+	}
+	n := 0
+	for _, f := range tls.Syntax {
+		if !strings.HasPrefix(baseName(c.P.Fset.Position(f.Pos()).Filename), "u_") || strings.HasSuffix(c.P.Fset.Position(f.Pos()).Filename, "_test.go") {
+			continue
+		}
+		for _, decl := range f.Decls {
+			owner := "var"
+			if fd, ok := decl.(*ast.FuncDecl); ok {
+				owner = load.RecvName(fd) + "." + fd.Name.Name
+			}
+			ord := 0
+			ast.Inspect(decl, func(x ast.Node) bool {
+				cl, ok := x.(*ast.CompositeLit)
+				if !ok || an.TypeName(info.TypeOf(cl)) != "HPKESymmetricCipherSuite" || len(cl.Elts) == 0 {
+					return true
+				}
+				ord++
+				slots := map[string]ast.Expr{}
+				for i, el := range cl.Elts {
+					if kv, ok := el.(*ast.KeyValueExpr); ok {
+						if id, ok := kv.Key.(*ast.Ident); ok {
+							slots[id.Name] = kv.Value
+						}
+					} else if i == 0 {
+						slots["KdfId"] = el
+					} else if i == 1 {
+						slots["AeadId"] = el
+					}
+				}
+				cons := fmt.Sprintf("suite-literal:%s#%d", owner, ord)
+				n++
+				kr, ki := role(slots["KdfId"])
+				ar, ai := role(slots["AeadId"])
+				switch {
+				case slots["KdfId"] != nil && kr == "aead":
+					r.Bad("C16.8", cons, c.Pos(cl), "the KdfId slot is filled from an AEAD id (%s): the GREASE ECH extension advertises a KDF/AEAD pair that is not in the candidate list", an.Str(slots["KdfId"]))
+				case slots["AeadId"] != nil && ar == "kdf":
+					r.Bad("C16.8", cons, c.Pos(cl), "the AeadId slot is filled from a KDF id (%s): the GREASE ECH extension advertises a KDF/AEAD pair that is not in the candidate list", an.Str(slots["AeadId"]))
+				case ki != "" && ai != "" && ki != ai:
+					r.Bad("C16.8", cons, c.Pos(cl), "KdfId and AeadId are taken from different candidates (%s vs %s): the pair is not one of the candidate list", ki, ai)
+				default:
+					r.Ok("C16.8", cons, c.Pos(cl), "KdfId<-"+kr+" AeadId<-"+ar)
+				}
+				return true
+			})
+		}
+	}
+	r.Count("C16.8_literals", n)
+	r.Floor("C16.8", 2)
+}
+
+func baseName(p string) string {
+	if i := strings.LastIndex(p, "/"); i >= 0 {
+		return p[i+1:]
+	}
+	return p
 }
